@@ -33,6 +33,9 @@ mod verif_native {
         fn rec(alphabet: &[char], buf: &mut String, depth: usize, cases: &mut u64, accepted: &mut u64) {
             if check(buf) {
                 *accepted += 1;
+                if *accepted % 200_000 == 3 { println!("VERIF-NATIVE-SAMPLE nb_permissive_hex_enumerated accepted {:?}", buf); }
+            } else if *cases % 5_000_000 == 11 {
+                println!("VERIF-NATIVE-SAMPLE nb_permissive_hex_enumerated refused {:?}", buf);
             }
             *cases += 1;
             if depth == 0 {
